@@ -34,7 +34,7 @@ def plan(tier, seed):
             if not (COMPS[i][0] in ("GroupProxNewton",) and st == "csc")]
 
 
-def base_problem(i, X, y, fi, tier):
+def base_problem(i, X, y, fi, tier, frac=0.15):
     sname, skw, dn, pk = COMPS[i]
     p = X.shape[1]
     kw = dict(skw, tol=1e-10)
@@ -56,7 +56,7 @@ def base_problem(i, X, y, fi, tier):
         dspec = dict(name=dn)
     a0 = RC.alpha_crit(dict(datafit=dict(name="Logistic") if dn in ("Logistic", "LogisticGroup") else (dict(name="QuadraticMultiTask") if dn == "QuadraticMultiTask" else None),
                             X=X, y=y, fit_intercept=fi and sname not in ("GramCD", "FISTA")))
-    a = 0.15 * (a0 if np.isfinite(a0) and a0 > 1e-8 else 1.0)
+    a = frac * (a0 if np.isfinite(a0) and a0 > 1e-8 else 1.0)
     if pk == "L1":
         ps = dict(name="L1", alpha=a, positive=False)
     elif pk in ("WeightedL1", "WeightedL1+"):
@@ -205,10 +205,15 @@ def exec_pair(params):
         if Fa - Fb > bound:
             out.append(("solution_does_not_transform", dict(direction=tag, gap=Fa - Fb, violation=nu), f"<= {bound}"))
     Xd = prob2["X"]
-    if np.linalg.matrix_rank(Xd) == Xd.shape[1] and prob2["penalty"]["name"] in ("L1", "WeightedL1", "WeightedGroupL2", "L2_1") and \
+    Xa = np.column_stack([Xd, np.ones(Xd.shape[0])]) if prob2.get("fit_intercept") else Xd          # the intercept is a variable too
+    if np.linalg.matrix_rank(Xa) == Xa.shape[1] and prob2["penalty"]["name"] in ("L1", "WeightedL1", "WeightedGroupL2", "L2_1") and \
             (prob2["datafit"] is None or prob2["datafit"]["name"].startswith("Quadratic")):
-        if np.max(np.abs(np.asarray(w2) - Tw)) > 1e-6 * (1 + np.max(np.abs(Tw))):
-            out.append(("coefficients_do_not_transform", float(np.max(np.abs(np.asarray(w2) - Tw))), "<= 1e-6 relative"))
+        # strong convexity (modulus mu = lambda_min(Xa' Xa / n)): ||a - b||_2 <= (nu_a + nu_b) sqrt(dim) / mu for two points of violation nu_a, nu_b
+        mu = float(np.linalg.eigvalsh(Xa.T @ Xa / Xa.shape[0])[0])
+        nus = RC.violation(prob2, w2)[0] + RC.violation(prob2, Tw)[0]
+        allowed = max(1e-6 * (1 + np.max(np.abs(Tw))), 2.0 * nus * np.sqrt(np.asarray(Tw).size) / mu)
+        if np.max(np.abs(np.asarray(w2) - Tw)) > allowed:
+            out.append(("coefficients_do_not_transform", float(np.max(np.abs(np.asarray(w2) - Tw))), f"<= {allowed}"))
     return out, w2
 
 
@@ -217,12 +222,16 @@ def run(task, ctx):
     i, storage = task["comp"], task["storage"]
     sname, skw, dn, pk = COMPS[i]
     kind = R.KIND[dn]
-    designs = [("tall6x3", A.G_TALL), ("sq4x4", A.G_SQ)] + ([("wide3x5", A.G_WIDE)] if tier != "quick" else [])
+    designs = [("tall6x3", A.G_TALL), ("sq4x4", A.G_SQ)]
+    if tier != "quick":
+        designs += [("wide3x5", A.G_WIDE), ("dup", A.K()["dup"]), ("lincomb", A.K()["lincomb"]), ("scaled-sq", A.S()["scaled-sq"]),
+                    ("hadamard4x3", A.O()["hadamard4x3"]), ("tall6x3-zeromid", A.Z()["tall6x3-zeromid"])]
     for xid, X in designs:
-        for tname_, y in R.targets(kind, X, tier)[-1:]:
+        ts = R.targets(kind, X, tier)
+        for tname_, y in (ts[-1:] if tier == "quick" else ts):
             fis = [True, False] if "fit_intercept" in R.KNOBS.get(sname, {}) else [False]
-            for fi in fis:
-                comp = base_problem(i, X, y, fi, tier)
+            for fi, frac in [(f, a) for f in fis for a in ((0.15,) if tier == "quick" else (0.15, 0.6))]:
+                comp = base_problem(i, X, y, fi, tier, frac)
                 w, e = solve(comp, storage)
                 if w is None:
                     ctx.count("base_unsolved")
